@@ -1,6 +1,6 @@
 """C06 - slashing recognised exactly, pro rata: structural clauses (DESIGN 6, C06)."""
 from ..callgraph import explore, storage_effects, call_sites
-from ..expr import show, find
+from ..expr import show, find, arith_args
 from .common import entry, variant_env, stored, where, arm_handler
 from .hub_common import resync_fns, recompute_fns, Roles, STATE, PARAMS, BATCH
 
@@ -67,7 +67,7 @@ def run(prog, world, sem, rep):
             if x == dn and y.op == "call" and y.info.endswith("Decimal::from_ratio"):
                 okb = lab(y.args[0]) == stored(STATE, "total_bond_bsei_amount") and is_booked_sum(y.args[1])
     rep.ob("C06.b", "bSei pool := delegated x old bSei / booked", okb, det, where(body, bd.bb))
-    oks = sv.op == "call" and sv.info.endswith("checked_sub") and sv.args[0] == dn and sv.args[1] == bv
+    oks = arith_args(sv, "Sub") is not None and arith_args(sv, "Sub")[0] == dn and arith_args(sv, "Sub")[1] == bv
     rep.ob("C06.b", "stSei pool := delegated - new bSei pool", oks, show(sv, 5), where(body, sd.bb))
     rep.ob("C06.b", "comparison uses booked = bSei pool + stSei pool as loaded", bool(pass_edges), "%d guarding edge(s)" % len(pass_edges), where(body))
     # ---- C06.d accumulation
